@@ -64,6 +64,7 @@ func cmdShard(args []string) {
 	maxBatch := fs.Int("maxbatch", 0, "largest random batch (0 = 5)")
 	nids := fs.Int("nids", 0, "size of the id universe (0 = configuration default)")
 	repeatUpd := fs.Bool("repeat-upd", false, "update batches may name a point twice")
+	schedFile := fs.String("behaviours", "", "sched mode: file with one ShardCache.tla behaviour per line")
 	bfreq := fs.Int("backup-freq", 1, "backup mode: minimum age in seconds of the newest backup before another one is taken")
 	bcount := fs.Int("backup-count", 2, "backup mode: number of backups kept")
 	fs.Parse(args)
@@ -104,7 +105,7 @@ func cmdShard(args []string) {
 	case "graph":
 		opts.Graph = true
 		opts.Rank = *rank
-	case "fault", "conc", "backup":
+	case "fault", "conc", "backup", "sched":
 	default:
 		fmt.Fprintln(os.Stderr, "unknown mode", *mode)
 		os.Exit(2)
@@ -119,6 +120,23 @@ func cmdShard(args []string) {
 			tw.Flush()
 		}
 		fmt.Printf("{\"lines\":%d}\n", tw.N)
+		return
+	}
+	if *mode == "sched" {
+		behs, err := sd.ReadSchedBehaviours(*schedFile)
+		if err != nil {
+			fmt.Fprintln(os.Stderr, "driver error:", err)
+			os.Exit(2)
+		}
+		r := sd.NewRunner(cfg, *seed*1000, tw, *dir)
+		r.MaxBatch = *maxBatch
+		drifted, err := r.RunSchedBehaviours(behs, 1500*time.Millisecond)
+		tw.Flush()
+		if err != nil {
+			fmt.Fprintln(os.Stderr, "driver error:", err)
+			os.Exit(2)
+		}
+		fmt.Printf("{\"lines\":%d,\"behaviours\":%d,\"drifted\":%d}\n", tw.N, len(behs), drifted)
 		return
 	}
 	if *mode == "backup" {
